@@ -4,7 +4,11 @@ RULE = ("arithmetic: constants of the compiled backoff package; the interval orb
         "in_pause; loop: random dial-outcome scripts through addrConn.resetTransport with time.NewTimer redirected, requested pauses vs "
         "loop_sleeps/check_sleeps; first pause of a fresh connection next to a failing one; recovery: fault sequences (cut after k bytes in "
         "either direction during the handshake, black-hole, reset, established session cut, server restart, key removed then re-added) through "
-        "a TCP proxy, then Ready again and a call in each direction succeeds; durations of websocket_client.go scaled for the black-hole case")
+        "a TCP proxy, then Ready again and a call in each direction succeeds; durations of websocket_client.go scaled for the black-hole case; "
+        "the connection of the n-th successful dial lost after its handshake and before the loop records it (hook inside the dial call, the "
+        "transport's close callback has run by then); an established session that stalls (a proxy stops draining both directions without any "
+        "error, the server side is dropped) while the client keeps calling with a 300 ms write timeout: it must dial again within 12 s and both "
+        "directions must work again")
 ASSUMPTIONS = ["reachability of the server and TCP behaviour are environment; the real network is exercised through the loopback proxy only"]
 FILES = ["root/fake_test.go", "root/c16_test.go", "root/c07_test.go", "root/peers_test.go", "root/c18_test.go", "root/c06_test.go"]
 
